@@ -31,7 +31,25 @@ TOL_STAGE = 1e-8   # basis-free operators of the realisation stage
 TOL_ALG = 1e-9     # algebraic values (shapes, fn^2, xi^2)
 TOL_E2E = 1e-6     # end to end, as in the property's "up to floating-point conditioning"
 COND_STAGE = 1e4   # sigma_1 / sigma_n of the generated Hankel products
-COND_E2E = 1e7     # sigma_1 / sigma_2m of the Hankel matrix built from the data: beyond this the case is not judged
+COND_E2E = 1e8     # sigma_1 / sigma_2m of the Hankel matrix built from the data: beyond this the case is not judged
+# sampling rates of the end-to-end stream: round ones AND ones whose period 1/fs is not a short decimal
+FS_LIST = [7.0, 8.0, 44.1, 50.0, 51.2, 100.0, 128.0, 256.0, 1000.0, 1200.0, 2048.0, 1 / 0.03]
+
+
+def tol_e2e(cond):
+    """End-to-end tolerance: the property's 1e-6 is the cap; below it the tolerance follows the conditioning of the Hankel matrix
+    (observed error of the unchanged code <= 3e-15 * cond)."""
+    return min(TOL_E2E, max(1e-9, 1e-12 * cond))
+
+
+def tol_graded(ratio):
+    """Realisation stage on graded conditioning: observed error of both unchanged routines <= 4 eps * ratio."""
+    return min(1e-5, max(1e-10, 2e-13 * ratio))
+
+
+def same_arrays(a, b):
+    a, b = np.asarray(a), np.asarray(b)
+    return a.shape == b.shape and a.dtype == b.dtype and bool(np.array_equal(a, b, equal_nan=True))
 
 
 def nj(ctx, reason):
@@ -202,9 +220,13 @@ def stage_realise_case(ctx, case, exprs, meta):
     ctx.count(dict(kind="realise", **case), nontrivial=(l != r and n >= 2))
     ctx.sample(dict(kind="realise", family=fam, l=l, r=r, br=br, n=n, ordmax=ordmax))
     routines = []
+    H0 = H.copy()
     for name, call in (("SSI_fast", lambda: ssi.SSI_fast(H, br, ordmax)[1:3]), ("SSI", lambda: ssi.SSI(H, br, ordmax)[0:2])):
         try:
             AA, CC = call()
+            if not same_arrays(H, H0):
+                ctx.fail("oracle", "%s modified the Hankel matrix it was given" % name, small, key="C01:%s:input-modified" % name)
+                H = H0.copy()
         except np.linalg.LinAlgError:
             if ordmax > n and s[ordmax - 1] <= 1e-12 * s[0]:
                 # orders above the exact rank: the triangular factor of O_p is exactly singular and np.linalg.inv raises for the whole call.
@@ -431,7 +453,11 @@ def stage_ac2mp(ctx, cases):
         ctx.count(dict(kind_="ac2mp", **case), nontrivial=(case["n"] >= 2))
         ctx.hist("ac2mp.kind", case["kind"])
         ctx.hist("ac2mp.shape(n,l)", (case["n"], case["l"]))
+        A0, C0 = A.copy(), C.copy()
         fn, xi, phi, lam_c, *_ = ssi.ac2mp(A, C, dt)
+        if not (same_arrays(A, A0) and same_arrays(C, C0)):
+            ctx.fail("oracle", "ac2mp modified the matrices it was given", case, key="C01:ac2mp:input-modified")
+            continue
         if case["kind"] == "tie":
             # exact tie by construction (|C[0]psi| = |C[l-1]psi|): np.argmax takes the first; the model's margin is 0, so decide here
             # (inputs are short dyadics, so the squared moduli below are exact in floating point); any OTHER exact tie is decided by
@@ -481,7 +507,11 @@ def stage_poles(ctx, cases):
         ctx.count(dict(kind_="poles", **case), nontrivial=(ordmax >= 2))
         ctx.hist("poles.shape(ordmax,l)", (ordmax, l))
         small = dict(kind="SSI_poles", ordmax=ordmax, l=l, dt=dt, orders=case["orders"])
+        AA0, CC0 = [x.copy() for x in AA], [x.copy() for x in CC]
         Fn, Xi, Phi, Lam, *_ = ssi.SSI_poles(None, AA, CC, ordmax, dt)
+        if not (len(AA) == len(AA0) and len(CC) == len(CC0) and all(same_arrays(x, y) for x, y in zip(AA + CC, AA0 + CC0))):
+            ctx.fail("oracle", "SSI_poles modified the lists of matrices it was given", small, key="C01:SSI_poles:input-modified")
+            continue
         if Fn.shape != (ordmax, ordmax + 1) or Xi.shape != Fn.shape or Lam.shape != Fn.shape or Phi.shape != (ordmax, ordmax + 1, l):
             ctx.fail("oracle", "SSI_poles: table shapes %s %s %s %s for ordmax=%d, %d channels" % (Fn.shape, Xi.shape, Phi.shape, Lam.shape, ordmax, l),
                      small, key="C01:SSI_poles:shape")
@@ -532,11 +562,15 @@ def e2e_case(ctx, case):
     fs, N, br, ref, ordmax, hc = case["fs"], case["N"], case["br"], case["ref"], case["ordmax"], case["hc"]
     m, l = len(fn), phi.shape[0]
     Y, lam = free_decay(fn, xi, phi, amp, fs, N)
+    spacing = float(np.min(np.diff(fn) / fn[:-1])) if m > 1 else 1.0
     ctx.hist("e2e.(m,l,nref)", (m, l, len(ref)))
     ctx.hist("e2e.complex_shapes", case["cplx"])
+    ctx.hist("e2e.fs", "%.6g" % fs)
+    ctx.hist("e2e.closest_mode_spacing", "<5% (inside the mpe default rtol)" if spacing < 0.05 else ">=5%")
     for cls, method in ((SSIcov, "cov_mm"), (SSIdat, "dat")):
         cs = dict(case, method=method)
-        ss = SingleSetup(Y.copy(), fs=fs)
+        data = Y.copy()
+        ss = SingleSetup(data, fs=fs)
         kw = dict(br=br, ordmax=ordmax, ref_ind=ref)
         if hc is not None:
             kw["hc"] = hc
@@ -544,14 +578,19 @@ def e2e_case(ctx, case):
         ss.add_algorithms(alg)
         ss.run_by_name("a")
         res = alg.result
+        key = "C01:e2e-%s" % method
+        # ---- general clause: the inputs are bit-unchanged by the run
+        if not (same_arrays(data, Y) and same_arrays(ss.data, Y) and same_arrays(alg.data, Y)):
+            ctx.fail("oracle", "%s: run() modified the measured data it was given" % method, cs, key=key + ":input-modified")
+            continue
         s = np.linalg.svd(res.H, compute_uv=False)
         cond = s[0] / s[2 * m - 1]
         if not cond < COND_E2E:
             nj(ctx, "e2e: Hankel conditioning")
             continue
+        tol = tol_e2e(cond)
         ctx.count(dict(kind_="e2e", **cs), nontrivial=True)
         ctx.sample(dict(kind="e2e", method=method, m=m, l=l, ref=ref, br=br, N=N, fs=fs, fn=case["fn"], xi=case["xi"]))
-        key = "C01:e2e-%s" % method
         # ---- pole table at order 2m: exactly m conjugate pairs, each carrying the true fn, xi and shape
         col = 2 * m
         Fc, Xc, Pc, Lc = res.Fn_poles[:, col], res.Xi_poles[:, col], res.Phi_poles[:, col, :], res.Lambds[:, col]
@@ -561,25 +600,27 @@ def e2e_case(ctx, case):
             continue
         bad = None
         for j in range(m):
-            idx = [i for i in np.where(live)[0] if abs(Fc[i] - fn[j]) <= TOL_E2E * fn[j]]
+            idx = [i for i in np.where(live)[0] if abs(Fc[i] - fn[j]) <= tol * fn[j]]
             if len(idx) != 2:
-                bad = "mode %d (fn=%.9g): %d poles within 1e-6 at order %d (frequencies %s)" % (j, fn[j], len(idx), col, Fc[live])
+                near = Fc[live][np.argsort(np.abs(Fc[live] - fn[j]))[:2]]
+                bad = "mode %d (fn=%.12g, fs=%.9g): %d poles within %.1e relative at order %d (nearest %s, relative error %.3g; cond %.2g)" % (
+                    j, fn[j], fs, len(idx), tol, col, near, abs(near[0] - fn[j]) / fn[j], cond)
                 break
-            if not all(abs(Xc[i] - xi[j]) <= TOL_E2E for i in idx):
+            if not all(abs(Xc[i] - xi[j]) <= tol for i in idx):
                 bad = "mode %d: damping %s, true %.9g" % (j, Xc[idx], xi[j])
                 break
             ims = sorted(np.sign(Lc[i].imag) for i in idx)
-            if ims != [-1.0, 1.0] or not all(abs(Lc[i] - (lam[j] if Lc[i].imag > 0 else np.conj(lam[j]))) <= TOL_E2E * abs(lam[j]) for i in idx):
+            if ims != [-1.0, 1.0] or not all(abs(Lc[i] - (lam[j] if Lc[i].imag > 0 else np.conj(lam[j]))) <= tol * abs(lam[j]) for i in idx):
                 bad = "mode %d: continuous poles %s are not the conjugate pair %s" % (j, Lc[idx], lam[j])
                 break
             for i in idx:
                 want = phi[:, j] if Lc[i].imag > 0 else np.conj(phi[:, j])
                 mc = mac(Pc[i], want)
                 k = int(np.argmax(np.abs(want)))
-                if not mc > 1 - TOL_E2E:
+                if not mc > 1 - tol:
                     bad = "mode %d: shape at the pole with Im %+.3g has MAC %.9f with the true (conjugated for the Im<0 partner) shape" % (j, Lc[i].imag, mc)
                     break
-                if not (abs(Pc[i][k] - 1) <= 1e-9 and np.allclose(Pc[i], unity(want), rtol=0, atol=TOL_E2E * 10)):
+                if not (abs(Pc[i][k] - 1) <= 1e-9 and np.allclose(Pc[i], unity(want), rtol=0, atol=tol * 10)):
                     bad = ("mode %d: shape is not unity normalised (component %d of largest modulus is %s, must be exactly 1)" % (j, k, Pc[i][k]))
                     break
             if bad:
@@ -587,27 +628,67 @@ def e2e_case(ctx, case):
         if bad:
             ctx.fail("oracle", "%s, %d modes, %d channels, refs %s, br=%d: %s" % (method, m, l, ref, br, bad), cs, key=key + ":table")
             continue
-        # ---- extraction at that order returns those values
-        ss.mpe("a", sel_freq=[float(f) for f in fn], order=col, rtol=1e-3)
-        Fn, Xi, Phi = np.asarray(res.Fn), np.asarray(res.Xi), np.asarray(res.Phi)
-        if Fn.shape != (m,) or Xi.shape != (m,) or Phi.shape != (l, m):
-            ctx.fail("oracle", "%s: mpe(order=%d) returned Fn%s Xi%s Phi%s for %d requested modes" % (method, col, Fn.shape, Xi.shape, Phi.shape, m), cs,
-                     key=key + ":mpe-shape")
-            continue
-        ef = np.max(np.abs(Fn - fn) / fn)
-        ex = np.max(np.abs(Xi - xi))
-        em = max(1 - max(mac(Phi[:, j], phi[:, j]), mac(Phi[:, j], np.conj(phi[:, j]))) for j in range(m))
-        if not (ef <= TOL_E2E and ex <= TOL_E2E and em <= TOL_E2E):
-            ctx.fail("oracle", "%s: mpe(order=%d) relative frequency error %.3g, damping error %.3g, 1-MAC %.3g (cond %.2g)" % (method, col, ef, ex, em, cond),
-                     cs, key=key + ":mpe")
+        # ---- extraction at that order returns, for EVERY requested mode, its own frequency, damping and shape:
+        #      with the default rtol (5 %, as a user would call it: closely spaced modes lie inside it) and with a tight one
+        sel = [float(f) for f in fn]
+        extracted = {}
+        for label, kwargs in (("default rtol", {}), ("rtol=1e-3", dict(rtol=1e-3))):
+            if label == "rtol=1e-3" and spacing < 2.5e-3:
+                continue
+            ss.mpe("a", sel_freq=list(sel), order=col, **kwargs)
+            Fn, Xi, Phi = np.asarray(res.Fn), np.asarray(res.Xi), np.asarray(res.Phi)
+            extracted[label] = (Fn.copy(), Xi.copy(), Phi.copy())
+            if Fn.shape != (m,) or Xi.shape != (m,) or Phi.shape != (l, m):
+                ctx.fail("oracle", "%s: mpe(order=%d, %s) returned Fn%s Xi%s Phi%s for %d requested modes" % (method, col, label, Fn.shape, Xi.shape, Phi.shape, m),
+                         cs, key=key + ":mpe-shape")
+                break
+            efv = np.abs(Fn - fn) / fn
+            exv = np.abs(Xi - xi)
+            emv = np.array([1 - max(mac(Phi[:, j], phi[:, j]), mac(Phi[:, j], np.conj(phi[:, j]))) for j in range(m)])
+            if not (efv.max() <= tol and exv.max() <= tol and emv.max() <= tol):
+                j = int(np.argmax(np.maximum(np.maximum(efv, exv), emv)))
+                ctx.fail("oracle", "%s: mpe(sel_freq=%s, order=%d, %s): requested mode %d (fn=%.9g, xi=%.6g) came back as fn=%.9g xi=%.6g, 1-MAC %.3g "
+                         "(closest spacing of the system %.3g, fs=%.9g, cond %.2g)" % (method, [round(f, 6) for f in sel], col, label, j, fn[j], xi[j], Fn[j], Xi[j],
+                                                                                     emv[j], spacing, fs, cond), cs, key=key + ":mpe")
+                break
+            if sel != [float(f) for f in fn]:
+                ctx.fail("oracle", "%s: mpe modified the list of requested frequencies" % method, cs, key=key + ":mpe-input-modified")
+                break
+        else:
+            # ---- general clause: a second run of the same algorithm object gives identical results, and so does a second extraction
+            first = [np.array(x, copy=True) for x in (res.Fn_poles, res.Xi_poles, res.Phi_poles, res.Lambds, res.H)]
+            firstAC = [np.array(x, copy=True) for x in list(res.A) + list(res.C)]
+            ss.run_by_name("a")
+            res2 = alg.result
+            again = [res2.Fn_poles, res2.Xi_poles, res2.Phi_poles, res2.Lambds, res2.H]
+            if not (all(same_arrays(x, y) for x, y in zip(first, again)) and len(firstAC) == len(res2.A) + len(res2.C)
+                    and all(same_arrays(x, y) for x, y in zip(firstAC, list(res2.A) + list(res2.C))) and same_arrays(ss.data, Y)):
+                ctx.fail("oracle", "%s: running the same algorithm object a second time on the same data gives different results" % method, cs,
+                         key=key + ":rerun-differs")
+                continue
+            ss.mpe("a", sel_freq=list(sel), order=col)
+            F2, X2, P2 = extracted["default rtol"]
+            if not (same_arrays(res2.Fn, F2) and same_arrays(res2.Xi, X2) and same_arrays(res2.Phi, P2)):
+                ctx.fail("oracle", "%s: extracting again after a second run gives different modal parameters" % method, cs, key=key + ":rerun-mpe-differs")
 
 
 def gen_e2e_case(rng, mmax, k):
     m = int(rng.integers(1, mmax + 1))
     l = int(rng.integers(2, 9))
-    fs = float(rng.choice([8.0, 50.0, 100.0, 1000.0]))
+    fs = float(FS_LIST[int(rng.integers(0, len(FS_LIST)))])
     cplx = bool(k % 2)
     fn, xi, phi, amp = modal_system(rng, m, l, fs, cplx)
+    if k % 3 == 1 and m >= 2:
+        # closely spaced pair: spacing 1-4 %, i.e. inside the default rtol of mpe; the other modes stay >= 8 % away from both
+        for _ in range(1000):
+            f0 = rng.uniform(0.03, 0.38) * fs
+            pair = [f0, f0 * (1 + rng.uniform(0.01, 0.04))]
+            rest = list(rng.uniform(0.02, 0.45, size=m - 2) * fs)
+            allf = np.sort(np.array(pair + rest))
+            d = np.diff(allf) / allf[:-1]
+            if allf[-1] < 0.45 * fs and np.sum(d < 0.08) == 1:
+                fn = allf
+                break
     nref = int(rng.integers(1, l + 1))
     ref = sorted(rng.choice(l, size=nref, replace=False).tolist())
     if k % 5 == 3:
@@ -619,8 +700,99 @@ def gen_e2e_case(rng, mmax, k):
     # hard criteria: default ones for real shapes in every other case (true damping <= 8 % < xi_max, MPC 1, MPD 0), else loosened so that
     # complex shapes and the requested order are not filtered (the property is about the poles, not about the filters)
     hc = None if (not cplx and k % 4 == 0) else dict(conj=bool(k % 3), xi_max=0.5, mpc_lim=0.0, mpd_lim=10.0, cov_max=10.0)
-    return dict(fn=fn.tolist(), xi=xi.tolist(), phi=[[[z.real, z.imag] for z in row] for row in phi], amp=[[z.real, z.imag] for z in amp],
+    return dict(fn=[float(f) for f in fn], xi=xi.tolist(), phi=[[[z.real, z.imag] for z in row] for row in phi], amp=[[z.real, z.imag] for z in amp],
                 fs=fs, N=N, br=br, ref=ref, ordmax=ordmax, hc=hc, cplx=cplx)
+
+
+# ------------------------------------------------------------------------------------------------ stage (i'): graded conditioning
+def graded_H(case):
+    """Exact-rank product H = O.Gamma of a modal system whose mode [weak] is only weakly controllable (rows of G scaled by eps)."""
+    fn, xi, fs, br = np.array(case["fn"]), np.array(case["xi"]), case["fs"], case["br"]
+    C, G = np.array(case["C"]), np.array(case["G"])
+    m = len(fn)
+    w = 2 * np.pi * fn
+    lam = -xi * w + 1j * w * np.sqrt(1 - xi ** 2)
+    ld = np.exp(lam / fs)
+    A = np.zeros((2 * m, 2 * m))
+    for j in range(m):
+        A[2 * j:2 * j + 2, 2 * j:2 * j + 2] = [[ld[j].real, ld[j].imag], [-ld[j].imag, ld[j].real]]
+    g = G.copy()
+    g[2 * case["weak"]:2 * case["weak"] + 2, :] *= case["eps"]
+    O = obs_matrix(A, C, br + 1)
+    Gam = np.hstack([np.linalg.matrix_power(A, k) @ g for k in range(br + 1)])
+    return O @ Gam, A, C, ld
+
+
+def gen_graded_case(rng, ratio):
+    m = int(rng.integers(2, 4))  # at least one other mode must set sigma_1
+    l = int(rng.integers(2, 5))
+    r = int(rng.integers(1, 4))
+    br = int(rng.integers(max(2, -(-2 * m // min(l, r))), 10))
+    fs = float(FS_LIST[int(rng.integers(0, len(FS_LIST)))])
+    for _ in range(1000):
+        fn = np.sort(rng.uniform(0.03, 0.42, size=m)) * fs
+        if m == 1 or np.min(np.diff(fn)) > 0.04 * fs:
+            break
+    case = dict(fn=fn.tolist(), xi=rng.uniform(0.005, 0.05, size=m).tolist(), fs=fs, br=br, l=l, r=r, C=rng.normal(size=(l, 2 * m)).tolist(),
+                G=rng.normal(size=(2 * m, r)).tolist(), weak=int(rng.integers(0, m)), eps=1.0)
+    lo, hi = 1e-13, 1.0
+    for _ in range(50):  # bisection on the controllability of the weak mode to reach the singular-value ratio aimed at
+        case["eps"] = float(np.sqrt(lo * hi))
+        sv = np.linalg.svd(graded_H(case)[0], compute_uv=False)
+        if sv[0] / sv[2 * m - 1] > ratio:
+            lo = case["eps"]
+        else:
+            hi = case["eps"]
+    case["eps"] = float(hi)
+    return case
+
+
+def graded_case(ctx, case):
+    """Both realisation routines on an exact rank-2m product with a prescribed singular-value ratio: poles, fn, xi, shapes of the TRUE
+    system at order 2m, tolerance proportional to the conditioning of H (a routine that squares the conditioning fails here)."""
+    H, A0, C0, ld = graded_H(case)
+    fn, xi, fs, br, l = np.array(case["fn"]), np.array(case["xi"]), case["fs"], case["br"], case["l"]
+    m = len(fn)
+    n = 2 * m
+    sv = np.linalg.svd(H, compute_uv=False)
+    ratio = sv[0] / sv[n - 1]
+    if not ratio < 3e8:
+        nj(ctx, "graded: ratio beyond 3e8")
+        return
+    tol = tol_graded(ratio)
+    ctx.count(dict(kind_="graded", **case), nontrivial=True)
+    ctx.hist("graded.log10(ratio)", int(np.floor(np.log10(ratio))))
+    H0 = H.copy()
+    for name, call in (("SSI_fast", lambda: ssi.SSI_fast(H, br, n)[1:3]), ("SSI", lambda: ssi.SSI(H, br, n)[0:2])):
+        AA, CC = call()
+        key = "C01:%s" % name
+        if not same_arrays(H, H0):
+            ctx.fail("oracle", "%s modified the Hankel matrix it was given" % name, dict(case, routine=name), key=key + ":input-modified")
+            H = H0.copy()
+            continue
+        AA2, CC2 = call()
+        if not (len(AA) == len(AA2) and all(same_arrays(x, y) for x, y in zip(list(AA) + list(CC), list(AA2) + list(CC2)))):
+            ctx.fail("oracle", "%s: a second call on the same input gives different matrices" % name, dict(case, routine=name), key=key + ":recall-differs")
+            continue
+        An, Cn = np.asarray(AA[n]), np.asarray(CC[n])
+        if An.shape != (n, n) or Cn.shape != (l, n):
+            ctx.fail("oracle", "%s order %d: A%s C%s" % (name, n, An.shape, Cn.shape), dict(case, routine=name), key=key + ":shape")
+            continue
+        w, v = np.linalg.eig(An)
+        shp = Cn @ v
+        worst, what = 0.0, ""
+        for j in range(m):
+            i = int(np.argmin(np.abs(w - ld[j])))
+            lc = np.log(w[i]) * fs
+            f, x = abs(lc) / (2 * np.pi), -lc.real / abs(lc)
+            psi = np.zeros(n, complex)
+            psi[2 * j], psi[2 * j + 1] = 1, 1j
+            e = max(abs(f - fn[j]) / fn[j], abs(x - xi[j]), 1 - mac(shp[:, i], C0 @ psi))
+            if e > worst:
+                worst, what = e, "mode %d: identified fn=%.9g xi=%.6g, true fn=%.9g xi=%.6g, 1-MAC %.3g" % (j, f, x, fn[j], xi[j], 1 - mac(shp[:, i], C0 @ psi))
+        if not worst <= tol:
+            ctx.fail("oracle", "%s on an exact rank-%d product %dx%d with singular-value ratio %.3g: %s (error %.3g, allowed %.3g = 2e-13 x ratio)"
+                     % (name, n, H.shape[0], H.shape[1], ratio, what, worst, tol), dict(case, routine=name), key=key + ":graded-conditioning")
 
 
 # ------------------------------------------------------------------------------------------------ driver
@@ -638,10 +810,10 @@ def run(ctx):
         "multiplicity (exactly m pairs at order 2m) and the nearest-pole extraction are checked by the oracle on the implementation only (C01_full_statement)",
     ]
     # ---- corpus first
-    stage_c, ac_c, pol_c, e2e_c = [], [], [], []
+    stage_c, ac_c, pol_c, e2e_c, gr_c = [], [], [], [], []
     for path in sorted(glob.glob(os.path.join(VERIF, "corpus", "C01", "*.json"))):
         d = json.load(open(path))
-        {"realise": stage_c, "ac2mp": ac_c, "poles": pol_c, "e2e": e2e_c}[d["stage"]].append(d["case"])
+        {"realise": stage_c, "ac2mp": ac_c, "poles": pol_c, "e2e": e2e_c, "graded": gr_c}[d["stage"]].append(d["case"])
     # ---- (i) realisation stage
     shapes = [(2, 2, 1, 3), (2, 3, 1, 2), (4, 3, 2, 2), (4, 2, 1, 4), (3, 2, 3, 2), (6, 3, 2, 3), (4, 4, 1, 2), (6, 2, 1, 6)]
     if not ctx.quick():
@@ -656,6 +828,14 @@ def run(ctx):
     t0 = time.time()
     stage_realise(ctx, stage_c)
     walls = {"realise": round(time.time() - t0, 1)}
+    t0 = time.time()
+    # ---- (i') realisation stage, graded conditioning (singular-value ratios 1e2 .. 1e8), both routines, oracle
+    ng = ctx.n(48, 600)
+    for k in range(ng):
+        gr_c.append(gen_graded_case(rng, 10 ** (2 + 6 * (k + rng.uniform(0, 1)) / ng)))
+    for case in gr_c:
+        graded_case(ctx, case)
+    walls["graded"] = round(time.time() - t0, 1)
     t0 = time.time()
     # ---- (ii) ac2mp
     kinds = ["plain"] * 8 + ["zero-row", "unstable", "tie", "zero-shape"]
